@@ -76,6 +76,10 @@ class Client:
     def loop_back(self, s):
         return s
 
+    def loop_back_node(self, n, s):
+        """State on the back edge of loop statement n (default: loop_back)."""
+        return self.loop_back(s)
+
     def enter(self, n, s):
         """Called when control enters statement n in state s; returns the states to continue with."""
         return [s]
@@ -272,7 +276,7 @@ class Flow:
                 back = ts2
             if inc is not None and 'kind' in inc:
                 back = self._expr_states(inc, back, out)
-            back = {self.c.loop_back(s) for s in back}
+            back = {self.c.loop_back_node(n, s) for s in back}
             new = head | back
             if new == head:
                 break
